@@ -32,7 +32,11 @@ func main() {
 		if len(os.Args) > 3 {
 			tier = os.Args[3]
 		}
-		racePassMain(reps, tier)
+		partOf := "0/1"
+		if len(os.Args) > 4 {
+			partOf = os.Args[4]
+		}
+		racePassMain(reps, tier, partOf)
 	case "worker":
 		os.Exit(runWorker(os.Args[2], os.Args[3]))
 	case "replay":
